@@ -34,7 +34,8 @@ var DebugTable string
 
 // DecodeTuple decodes a tuple using column schema
 func DecodeTuple(tuple *HeapTupleData, columns []Column) map[string]interface{} {
-	if tuple == nil || len(tuple.Data) == 0 {
+	// a tuple without data bytes is an all-NULL row (or one stored with zero attributes), not a missing row
+	if tuple == nil || (len(tuple.Data) == 0 && len(columns) == 0) {
 		return nil
 	}
 
